@@ -34,6 +34,7 @@ CONSTANTS
     CopyMap,     \* TRUE: parseConf works on a copy of the caller's map (fixed code)
     CacheConf,   \* FALSE is right; TRUE: a factory made from a component constructor keeps the first decoded config
     UseDefault,  \* TRUE is right; FALSE: the registered default-config func is ignored
+    MaxCalls,    \* the factory is called 1..MaxCalls times (3 in the quick tier, 4 in the thorough tier)
     PanicRule    \* "noerr" is right: panic iff the requested factory type has no error result; "flipped": the other way round
 
 Rets    == {"comp", "fact"}
@@ -45,7 +46,7 @@ Shapes  == {"viper", "yaml"}
 Regs    == {"synth", "real"}
 
 CaseSpace == [reg : Regs, ret : Rets, cfg : Cfgs, cerr : BOOLEAN, ferr : BOOLEAN, impl : BOOLEAN, dflt : BOOLEAN,
-              form : Forms, fail : Fails, failAt : 1..3, calls : 1..3, nested : Nesteds, shape : Shapes,
+              form : Forms, fail : Fails, failAt : 1..MaxCalls, calls : 1..MaxCalls, nested : Nesteds, shape : Shapes,
               mutate : BOOLEAN]
 
 \* which combinations exist (the others are normalised away or cannot be registered / injected)
